@@ -5,6 +5,7 @@ import (
 	"encoding/json"
 	"fmt"
 	"os"
+	"strings"
 
 	"gitlab.com/gomidi/midi/v2/smf"
 
@@ -70,6 +71,10 @@ func (s *RoundTrip) Run(env *core.Env, st *core.Stats) (vs []core.Violation) {
 	st.Eval(1)
 	if mismatch != "" {
 		add(true, core.V("builder-model", "op", "%s", mismatch))
+		if strings.Contains(mismatch, "intermediate") {
+			// a write or read in the middle of the history went wrong: that concerns the written bytes too
+			add(false, core.V("strict-parse", "intermediate-write", "%s", mismatch))
+		}
 	}
 	want := m.Written()
 
